@@ -123,7 +123,8 @@ CHECKS.update({
         text="C10_roundtrip proves for all five classes that everything a constructor accepted is accepted again on load and that the loaded object equals the saved one (class, every parameter, "
              "tables, bookkeeping), default_phi_valid covers the width-1 heavy-hitter case, C10_dispatch/C10_reject prove the module-level dispatch and TypeError of the other count-min loaders, "
              "C10_continue that any further history gives the same result. The run compares real save/load (shared_memory on/off), every public attribute, continued use under placed draws, "
-             "merge with the original and a second generation, and the constructor validation grid with the model." + SCHEMA,
+             "merge with the original and a second generation, the constructor validation grid with the model, and — because an in-process round trip cannot see state the loading process "
+             "is expected to rebuild from the file — files saved here and loaded in a NEW interpreter (harness/fresh_load.py), compared on class, attributes, tables and every answer." + SCHEMA,
         tech="Lean 4 proof (round-trip over a model of constructors/save/load incl. validation; save/load schema translated from source) + differential correspondence",
         ref="§4 C10"),
     "C12": dict(
